@@ -9,6 +9,10 @@ CLAIMED = {
    text="Real CASE handshakes between two rs-matter nodes over a simulated network whose adversary knows the ground truth of each run (credential defect of one side, on-path mutation/truncation/extension/replay/reorder of a handshake datagram, loss/dup/delay schedule); the session tables of both nodes are compared with it (no session for defective credentials, exact fabric/node/CAT binding, pairwise equal directional keys, honest run succeeds). Held = oracle silent on every handshake produced.",
    note="Trusted: virtual-time executor, simulated network, read-only session snapshot hook. Cryptographic strength is not tested. Only paths the generated handshakes drive are covered.",
    tech="runtime monitoring: ground-truth oracle over session tables of two real nodes under a network adversary", ref="DESIGN.md §3 C01"),
+ "C05": dict(cat="exploration",
+   text="The real access decision (Accessor + AccessReq::allow, driven exactly as the Interaction Model drives it, over real Fabrics/ACL tables built through the public API and through persisted blobs) is compared with a 60-line reference written from the statement on hundreds of thousands (thorough: 5e7) of generated configurations biased to near misses; every reference rule must be the deciding rule >= 1000 times or the run is inconclusive. Held = no disagreement.",
+   note="Reference algorithm trusted. Not judged (counted as notes): ProxyView-implies-View (rs-matter documents ProxyView as granting nothing), CAT version 0, entries without/with foreign fabric label, declarations without a privilege bit.",
+   tech="runtime monitoring: differential oracle (reference access algorithm) over generated ACL configurations", ref="DESIGN.md §3 C05"),
  "C04": dict(cat="exploration",
    text="Every boolean produced by the real receive-window and group-sender-table code is compared, step by step, with a reference written from the statement over exhaustively enumerated short histories around a window edge plus millions of biased random histories (duplicates, re-ordering, jumps of any size, values near 0 / 2^31 / 2^32-1, roll-over, evictions). Held = the oracle was silent on all of them.",
    note="Reference model (60 lines) and LRU eviction rule are trusted; runs explore histories up to length 300, not all histories.",
